@@ -56,7 +56,7 @@ PROPS = {
     "C15": sim("C15", 300, 8000),
     "C11": node(["TestC11", "TestC11Sim"], 500, 15000),
     "C13": {
-        "test": "TestC13", "corpus_test": "TestCorpusC13", "level": "fault_enumeration",
+        "test": "(TestC13|TestC13Syscall)", "corpus_test": "TestCorpusC13", "level": "fault_enumeration",
         "engine": "E-STORE",
         "tiers": {
             "quick": {"shards": 16, "cases": 120, "timeout_s": 900},
@@ -86,7 +86,7 @@ PROPS = {
                         "reports are attributed to the library only if the first non-runtime frame of both conflicting accesses is inside github.com/jmsadair/raft; a report involving harness code makes the run inconclusive"],
     },
     "C12": {
-        "test": "TestC12", "corpus_test": "TestCorpusC12", "level": "fault_enumeration",
+        "test": "(TestC12|TestC12Syscall)", "corpus_test": "TestCorpusC12", "level": "fault_enumeration",
         "engine": "E-STORE",
         "tiers": {
             "quick": {"shards": 16, "cases": 500, "timeout_s": 900},
@@ -129,7 +129,7 @@ MANIFEST_TEXT = {
     "C15": simtext("Bounded liveness in virtual time: after a generated fault prefix everything is healed and restarted; within 40 election timeouts (extended once by 160 before a miss is reported) exactly one leader, agreeing voters, an acknowledged fresh write, no pending configuration entry and identical applied sequences on all running members are required; a miss is reported with the leader-to-member stall cycle. Not a proof of 'eventually'."),
     "C07": simtext("Schedules biased to elections between differing logs; at the first sign of leadership of each (node, term) the node's stored log is compared with the set of entries ever observed committed or applied; truncations of committed entries are flagged at any time."),
     "C13": {
-        "test": "TestC13", "corpus_test": "TestCorpusC13", "level": "fault_enumeration",
+        "test": "(TestC13|TestC13Syscall)", "corpus_test": "TestCorpusC13", "level": "fault_enumeration",
         "engine": "E-STORE",
         "tiers": {
             "quick": {"shards": 16, "cases": 120, "timeout_s": 900},
@@ -149,13 +149,13 @@ MANIFEST_TEXT = {
         "level_note": "Trusted: rapid's generators, the comparison helpers; the transfer part depends on real time (generous deadlines) and free loopback ports.",
     },
     "C13": {
-        "technique": "model-based property test (rapid state machine) with crash-image enumeration",
-        "level_text": "Generated sequences of SetState / NewSnapshotFile+writes+Close|Discard / SnapshotFile / reopen (up to 40 snapshots per directory) against an in-memory model; every crash image of every call, derived from the observed directory delta (temp file prefixes and rename for the state file; temp snapshot directory in each stage of creation, partial data, partial removal, before/after rename), is opened with NewStateStorage, NewSnapshotStorage, NewLog and NewRaft on the first attempt and compared with the model; sequences continue from crash images.",
+        "technique": "model-based property test (rapid state machine) with crash-image enumeration, plus generated scripts under real process kills between system calls (strace fault injection)",
+        "level_text": "Generated sequences of SetState / NewSnapshotFile+writes+Close|Discard / SnapshotFile / reopen (up to 40 snapshots per directory) against an in-memory model; every crash image of every call, derived from the observed directory delta (temp file prefixes and rename for the state file; temp snapshot directory in each stage of creation, partial data, partial removal, before/after rename), is opened with NewStateStorage, NewSnapshotStorage, NewLog and NewRaft on the first attempt and compared with the model; sequences continue from crash images. Second engine: short generated scripts are executed by a helper process that strace kills immediately before the k-th file-system system call of the script thread (quick: 24 sampled points per script, thorough: every point); the directory the dead process leaves behind is opened the same way and must show the state after the completed calls or after the call in flight - this sees the real order of system calls (e.g. rename before the data is written), which derived images cannot.",
         "level_note": "Trusted: the image generator's process-crash model, checked against the observed delta of every call (unexpected shapes are reported as inconclusive); rename-vs-in-place is decided from the target's inode; one snapshot writer at a time (the storage is documented as not concurrency-safe).",
     },
     "C12": {
-        "technique": "model-based property test (rapid state machine) with crash-image enumeration",
-        "level_text": "Generated op sequences against an in-memory reference model; for every mutating call every crash image derived from the observed file delta (quick: boundary-biased byte cuts; thorough: every byte cut for sequences up to 12 ops) is reopened with the real constructors and compared through the whole read API, then probed with append+reopen; sequences continue from crash images. Bounded enumeration of crash points per generated sequence, not a proof over all sequences.",
+        "technique": "model-based property test (rapid state machine) with crash-image enumeration, plus generated scripts under real process kills between system calls (strace fault injection)",
+        "level_text": "Generated op sequences against an in-memory reference model; for every mutating call every crash image derived from the observed file delta (quick: boundary-biased byte cuts; thorough: every byte cut for sequences up to 12 ops) is reopened with the real constructors and compared through the whole read API, then probed with append+reopen; sequences continue from crash images. Second engine: short generated scripts run in a helper process that strace kills immediately before the k-th file-system system call (quick: 24 sampled points per script, thorough: every point); the log left behind must reopen to the model after the completed calls or the call in flight (or a prefix of an in-flight batch), accept one more append, and reopen again to exactly that. Bounded enumeration of crash points per generated sequence, not a proof over all sequences. A kill keeps the page cache, so missing fsyncs are only covered by the derived images' prefix model.",
         "level_note": "Trusted: the image generator's process-crash model (prefix of the bytes written by the in-flight call; temp file + rename for compact/discard), validated on every call against the observed before/after directory contents; rapid's generator; the harness reference model.",
     },
 }
